@@ -76,9 +76,10 @@ Write(s0, f, item, new) ==
            [] OTHER              -> [st |-> s0,  out |-> "err",   hit |-> TRUE]
     ELSE [st |-> new, out |-> "ok", hit |-> FALSE]
 
-(* "rempty": the stored value is empty.  RetrieveHighestAttestation then returns (nil, found, nil) and every caller
-   treats nil like a missing record; RetrieveHighestProposal returns (slot 0, found, nil) - errors.Wrap(nil, ..)
-   is nil - and the callers take slot 0 at face value. *)
+(* "rempty": the stored value is empty.  Named deviation = the code BEFORE fix 25c7aec2a: RetrieveHighestAttestation
+   returned (nil, found, nil) and every caller treats nil like a missing record; RetrieveHighestProposal returned
+   (slot 0, found, nil) - errors.Wrap(nil, ..) is nil - and the callers took slot 0 at face value.  Since the fix
+   both return an error (= "rerr"); Slashing_fault_rempty.cfg stays as the regression trace of that finding. *)
 Read(rec, none, empty, f, item, n) ==                       \* [rec, out, hit]
     IF f.at = item /\ f.n = n /\ f.k \in {"rerr", "rmiss", "rempty"}
     THEN CASE f.k = "rerr"  -> [rec |-> none,  out |-> "err", hit |-> TRUE]
@@ -92,13 +93,18 @@ Done(s0, out, hit) == [st |-> s0, out |-> out, hit |-> hit]
 
 (* ekm.updateHighestAttestation(pk, slot) *)
 MinAtt(c) == [f |-> TRUE, s |-> Ep(c) - 1, t |-> Ep(c)]     \* computeMinimalAttestationSP
+(* the record a bump writes: both marks from the clock.  Weaken = "bumpKeepsSource": only the target is raised,
+   the source is carried over from the record read - which is 0 for a share without a record (re-added share) *)
+BumpRec(r, c) == IF Weaken = "bumpKeepsSource"
+                 THEN [f |-> TRUE, s |-> IF r.f THEN r.s ELSE 0, t |-> Ep(c)]
+                 ELSE MinAtt(c)
 BumpAtt(s0, f, c) ==
     Bind(ReadAtt(s0, f, 1), LAMBDA rd :
     IF rd.out = "err" THEN Done(s0, "err", TRUE)
     ELSE IF /\ Weaken # "bumpOverwritesDown"
             /\ rd.rec.f /\ (rd.rec.s >= MinAtt(c).s \/ rd.rec.t >= MinAtt(c).t)
          THEN Done(s0, "ok", rd.hit)                          \* the existing record is kept
-         ELSE Bind(Write(s0, f, "att", [s0 EXCEPT !.att = MinAtt(c)]), LAMBDA w :
+         ELSE Bind(Write(s0, f, "att", [s0 EXCEPT !.att = BumpRec(rd.rec, c)]), LAMBDA w :
               Done(w.st, w.out, w.hit \/ rd.hit)))
 
 (* ekm.updateHighestProposal(pk, slot) *)
